@@ -438,6 +438,15 @@ def check_fpmath(tier, rng, okx):
                     same = (mo[0] == 1 and r[0] == "ok" and r[1] == mo[1]) or (mo[0] == 0 and r[0] == "exc")
                     if not same:
                         out["corr"].setdefault((name, "malformed"), {"function": name, "args": list(args), "model": mo, "impl": list(r)})
+        if name == "shift_left16" and okx:
+            # the NumPy-2 model behind theorem shift_left16_np_int16_refuted must be the real behaviour on np.int16 operands
+            npc = [c for c in cases if in16(c[0])]
+            for args, mo in zip(npc, prun("shl16np", [list(c) for c in npc])):
+                r = call_impl(fn, args, ("int16", "int"))
+                same = (mo[0] == 1 and r[0] == "ok" and r[1] == mo[1]) or (mo[0] == 0 and r[0] == "exc")
+                out["np_model_cases"] = out.get("np_model_cases", 0) + 1
+                if not same:
+                    out["corr"].setdefault((name, "numpy-int16-model"), {"function": name, "args": list(args), "model": mo, "impl": list(r)})
         out["per_function"][name] = {"cases": len(cases), "in_domain": n_dom, "malformed": n_mal,
                                      "type_combinations": [",".join(c) for c in combos]}
         if cases:
@@ -696,6 +705,37 @@ def check_tables(tier, rng, okx):
             if any(s != 1 for s in st) or gv != got:
                 out["corr"].setdefault(("quantize_fold", "model"), dict(key, model=mo[:9], impl=got[:3]))
     out["dist"]["quantize_fold_tensors"] = len(rq)
+
+    # ---- softmax exp table (softmax.py: saturating_rounding_mul32 + exp_on_negative_values on Python ints) -----
+    from ethosu.vela.softmax import SoftMax
+    sm = [(1.0, 0.05), (1.0, 1 / 256), (1.0, 0.1), (2.0, 0.03), (0.5, 0.2), (1.0, 1.0)]
+    sm += [(rng.choice([1.0, 1.0, 0.25, 4.0]), rand_scale(rng, -9, 1)) for _ in range(6 * n)]
+    for beta, si in sm:
+        key = {"table": "softmax_exp", "beta": beta, "ifm_scale": float(f32(si))}
+        with warnings.catch_warnings(record=True):
+            warnings.simplefilter("always")
+            try:
+                got = [int(v) for v in SoftMax(None).generate_exp_table(beta, f32(si))]
+            except Exception as ex:
+                out["viol"].setdefault(("softmax_exp", "crash"), (dict(table="softmax_exp", failure=type(ex).__name__),
+                                                                 dict(key, observed=str(ex)[:200]), "generate_exp_table raised %r" % (ex,)))
+                continue
+        out["tables"] += 1
+        real_beta = min(float(np.double(beta) * np.double(f32(si)) * (1 << 26)), float((1 << 31) - 1.0))
+        m, ls = ref_quantize_multiplier(real_beta)
+        diff_min = -1.0 * math.floor(1.0 * 31 * (1 << 26) / (1 << ls)) if 0 <= ls < 63 else 0
+        want = []
+        for x in range(256):
+            d = x - 255
+            want.append(ref_exp_neg(ref_srdhm32(d * (1 << ls), m)) if d >= diff_min and ls >= 0 and in32(d * (1 << ls)) else 0)
+        out["evals"] += 256
+        out["nontrivial"].add(("softmax_exp", beta, float(f32(si))))
+        if got != want:
+            i = next(j for j in range(256) if j >= len(got) or got[j] != want[j])
+            out["viol"].setdefault(("softmax_exp", "value"), (dict(table="softmax_exp", failure="value"),
+                                                             dict(key, index=i, observed=got[i] if i < len(got) else None, required=want[i]),
+                                                             "softmax exp table entry %d differs from the gemmlowp exp_on_negative_values pipeline" % i))
+    out["dist"]["softmax_exp_tables"] = len(sm)
     return out
 
 
@@ -940,6 +980,7 @@ def run(tier):
         "fp_math": fp["per_function"],
         "fp_math_evaluations": fp["evals"],
         "numpy_types_not_passed_by_any_call_site": fp["info"],
+        "numpy_int16_model_of_shift_left16_cases": fp.get("np_model_cases", 0),
         "tables": dict(tb["dist"], tables_judged=tb["tables"], entries_judged=tb["evals"]),
         "certificates": {"tables_certified": n_cert_ok, "tables_attempted": len(jobs), "entries_proved": n_cert_entries,
                          "from_cache": n_cached, "eps": "2^-10", "assumptions": cert_ax,
